@@ -281,11 +281,15 @@ func genPick(atom, num, dur string) (site genSite, attr string, value any, ok bo
 	root := vrtSchemaTree()
 	dotted := vrtParam("DOTTED", 0)
 	if dotted < 0 {
-		dotted = vrtChoice("dottedNames", 2)
+		dotted = vrtChoice("dottedNames", 3)
 	}
 	genSvc, genRes, genKey = "s", "r", "k1"
-	if dotted == 1 {
+	switch dotted {
+	case 1:
 		genSvc, genRes, genKey = "s.x", "r.x", "k.1"
+	case 2:
+		// names that merely contain the extension prefix
+		genSvc, genRes, genKey = "nx-s", "nx-r", "kx-1"
 	}
 	g := &gen{root: root, atom: atom, num: num, dur: dur, key: genKey, noExt: genNoExt}
 	genNoExt = false // one-shot: the next pick starts from the default again
